@@ -358,39 +358,52 @@ func sameOutcome(a, b outcome) (bool, string) {
 	return true, ""
 }
 
-// mapKeyEqualsFieldName: some data key of a map in the document equals, ignoring case, a key
-// that addresses a struct field somewhere below that map.
-func mapKeyEqualsFieldName(d *node) bool {
-	found := false
-	// returns the lower-cased field keys of the subtree
-	var walk func(n *node) map[string]bool
-	walk = func(n *node) map[string]bool {
-		fields := map[string]bool{}
-		var data []string
-		for _, x := range n.arr {
-			for k := range walk(x) {
-				fields[k] = true
-			}
+// fieldKeysBelow collects, lower-cased, every struct-field key that occurs in t or below.
+func fieldKeysBelow(t *tdesc, into map[string]bool) {
+	switch t.k {
+	case tPtr, tSlice, tMap:
+		fieldKeysBelow(t.elem, into)
+	case tStruct:
+		for _, f := range t.flatFields() {
+			into[strings.ToLower(f.key)] = true
+			fieldKeysBelow(f.t, into)
 		}
-		for _, e := range n.ents {
-			if e.perm {
-				fields[strings.ToLower(e.key)] = true
-			} else {
-				data = append(data, strings.ToLower(e.key))
-			}
-			for k := range walk(e.v) {
-				fields[k] = true
-			}
-		}
-		for _, k := range data {
-			if fields[k] {
-				found = true
-			}
-		}
-		return fields
 	}
-	walk(d)
-	return found
+}
+
+// mapKeyEqualsFieldName: some data key of a map in the document (canonical keys) equals, ignoring
+// case, the name of a struct field of that map's element type or below.
+func mapKeyEqualsFieldName(n *node, t *tdesc) bool {
+	t = t.deref()
+	switch {
+	case t.k == tStruct && n.k == nMap:
+		fs := t.flatFields()
+		for _, e := range n.ents {
+			if !e.perm {
+				continue
+			}
+			for _, f := range fs {
+				if f.key == e.key && mapKeyEqualsFieldName(e.v, f.t) {
+					return true
+				}
+			}
+		}
+	case t.k == tSlice && n.k == nArr:
+		for _, x := range n.arr {
+			if mapKeyEqualsFieldName(x, t.elem) {
+				return true
+			}
+		}
+	case t.k == tMap && n.k == nMap:
+		below := map[string]bool{}
+		fieldKeysBelow(t.elem, below)
+		for _, e := range n.ents {
+			if below[strings.ToLower(e.key)] || mapKeyEqualsFieldName(e.v, t.elem) {
+				return true
+			}
+		}
+	}
+	return false
 }
 
 // ---------------------------------------------------------------- one (type, document) pair
@@ -472,7 +485,7 @@ func runPair(c *kit.Case, t *tdesc, plain bool, scratch string, idx int) {
 					// the class of the failing input is "keys re-spelled"; which mismatch the document
 					// carries elsewhere is in the witness (label), not in the key
 					key := "C17/keycase-" + kind + "/" + strings.Join(bad, "+")
-					if mapKeyEqualsFieldName(dd) {
+					if mapKeyEqualsFieldName(dd, t) {
 						// one class whatever else the document contains
 						key = "C17/keycase/map-key-equals-a-field-name"
 					}
